@@ -19,20 +19,43 @@ ANG = {"direction", "angle", "z-angle", "azimuth"}
 
 
 def fx(t):
-    return float.fromhex(t) if t != "-" else 0.0
+    if t == "-":
+        return 0.0
+    try:
+        return float.fromhex(t)
+    except ValueError:
+        return float(t.replace("-nan", "nan"))     # nan / inf as printed by the harness: judged like any other wrong number
 
 
 def parse_lnet(out):
     d = {"points": {}, "obs": [], "rows": [], "unknowns": {}, "exc": None, "removed": [], "pass2": None}
     top = d
-    for l in out.split("\n"):
+    lines_ = out.split("\n")
+    for k_, l in enumerate(lines_):
         w = l.split()
         if not w:
             continue
+        try:
+            _parse_line(w, d, top)
+        except (ValueError, IndexError):
+            # a record cut short: the harness died while writing it (reported by the caller through its exit status)
+            top["truncated"] = True
+            if top["exc"] is None:
+                top["exc"] = "output of the harness ends inside a record: %s" % l[:80]
+            break
+        if w[0] == "PASS":
+            d = top["pass2"]
+        elif w[0] in ("MINN", "DEFECT", "X", "R", "VWV", "LINDEP", "REMOVED", "EXC", "END"):
+            d = top
+    return top
+
+
+def _parse_line(w, d, top):
+    if True:
         if w[0] == "PASS":
             d = {"points": {}, "obs": [], "rows": [], "unknowns": {}, "exc": None, "removed": [], "xnorth": top.get("xnorth", 0.0)}
             top["pass2"] = d
-            continue
+            return
         if w[0] in ("MINN", "DEFECT", "X", "R", "VWV", "LINDEP", "REMOVED", "EXC", "END"):
             d = top
         if w[0] == "POINT":
@@ -66,7 +89,7 @@ def parse_lnet(out):
             d["lindep"] = [int(v) for v in w[1:] if v in ("0", "1")]
         elif w[0] == "REMOVED":
             d["removed"] = w[1:]
-    return top
+
 
 
 def roles_of(d, ob):
